@@ -165,7 +165,15 @@ def delete_tables_with_prefix(sqlite_db_path: str | Path, prefix: str) -> None:
             (f"{prefix}%",),
         )
         try:
-            tables = [row[0] for row in cursor.fetchall()]
+            # LIKE is only a pre-filter: '_' is a wildcard and the match is
+            # case-insensitive. Keep exact prefix matches, and skip tables of another
+            # application whose own prefix merely starts with ours (its name continues
+            # with that application's '<hash>__<component>' part).
+            tables = [
+                row[0]
+                for row in cursor.fetchall()
+                if row[0].startswith(prefix) and "__" not in row[0][len(prefix) :]
+            ]
         finally:
             try:
                 cursor.close()
